@@ -50,6 +50,7 @@ func main() {
 		logq := fs.String("logq", "", "log solver queries")
 		solver := fs.String("solver", "z3", "solver binary")
 		sel := fs.Bool("select", false, "explore select alternatives")
+		unstub := fs.String("unstub", "", "comma separated environment models to switch off")
 		samples := fs.Int("samples", 0, "path-end samples")
 		mapOrder := fs.Int("maporder", 0, "explore iteration orders of maps up to this size")
 		splitN := fs.Int("splitn", 0, "")
@@ -61,7 +62,7 @@ func main() {
 		fs.Var(&redirs, "redirect", "function=harnessFunction")
 		fs.Parse(os.Args[2:])
 		spec := symgo.RunSpec{RepoDir: repoDir(), HarnessDir: verifDir() + "/harness", Pkg: *pkg, Fn: *fn, Sched: *sched, Preempt: *preempt,
-			Unwind: *unwind, MaxPaths: *maxPaths, LogQueries: *logq, Solver: *solver, Progress: true, Select: *sel, SampleEnds: *samples,
+			Unwind: *unwind, MaxPaths: *maxPaths, LogQueries: *logq, Solver: *solver, Progress: true, Select: *sel, Unstub: splitNonEmpty(*unstub), SampleEnds: *samples,
 			SplitN: *splitN, SplitI: *splitI, SplitDepth: *splitD, MapOrder: *mapOrder, Params: map[string]int64{}}
 		for _, p := range params {
 			kv := strings.SplitN(p, "=", 2)
@@ -132,4 +133,11 @@ func printResult(res *symgo.Result) {
 		fmt.Println("CONCRETE", i, string(b))
 	}
 	fmt.Println("funcs:", len(res.Funcs))
+}
+
+func splitNonEmpty(s string) []string {
+	if s == "" {
+		return nil
+	}
+	return strings.Split(s, ",")
 }
